@@ -447,8 +447,16 @@ def run_shard(spec, acc):
     rng = G.rng_for(spec['seed'], spec['shard'], 14)
     for i in range(spec['n']):
         case = gen_case(rng)
-        if i % 12 == 5:
-            case['pty'] = True        # a subset on real pty children (EOF = exit, connection_lost(EIO) on the asyncio side)
-            if case['enc'] is None:
-                pass
+        if i % 12 == 5 or os.environ.get('PVMON_C14_ALLPTY'):
+            # a subset on real pty children (EOF = exit, connection_lost(EIO) on the asyncio side).  A pty hands
+            # over one written piece per os.read; the blocking path assembles several available pieces in one
+            # read_nonblocking while the event loop delivers them one by one, so "the same read splitting" only
+            # exists when at most one piece is in flight: no pre-written and no several-at-once units here.
+            case['pty'] = True
+            for call in case['calls']:
+                flat = []
+                for u in list(call.get('pre', [])) + list(call['units']):
+                    flat.extend(u if isinstance(u, list) else [u])
+                call['pre'] = []
+                call['units'] = flat
         confirmed(case, guarded, acc)
